@@ -45,6 +45,8 @@ func main() {
 	arch := flag.String("goarch", "", "GOARCH for the load (thorough tier uses 386 as a second load)")
 	mutants := flag.Bool("mutants", false, "development: replay the mutants of -property (or all) and print which fire")
 	par := flag.Int("par", 8, "parallel mutant replays")
+	variant := flag.String("variant", "auto", "auto: analyse the program as written and fall back to the helpers-inlined variant when something is not discharged; as-written: never fall back; inlined: analyse only the inlined variant (development)")
+	writeHelpers := flag.Bool("write-helper-baseline", false, "development: write helpers_baseline.txt from the tree under -repo")
 	flag.Parse()
 
 	if *mutants {
@@ -109,6 +111,34 @@ func main() {
 		fmt.Printf("ERROR load failed: %v\n", err)
 		os.Exit(2)
 	}
+	if *writeHelpers {
+		var ks []string
+		for _, f := range pr.Funcs {
+			if pr.helperEligible(f) {
+				ks = append(ks, pr.Key(f))
+			}
+		}
+		sort.Strings(ks)
+		os.WriteFile(*verif+"/helpers_baseline.txt", []byte("# unexported helper functions of the tree the rules were developed against (validated_tree). The first fallback\n# variant (checker/variant.go) inlines only helpers that are NOT listed here, i.e. helpers introduced by later changes.\n# The list steers which equivalent program variant is analysed; it never suppresses a report.\n"+strings.Join(ks, "\n")+"\n"), 0o644)
+		fmt.Printf("wrote %d helper keys\n", len(ks))
+		os.Exit(0)
+	}
+	if *variant == "inlined" {
+		inl, rem, err := pr.InlineHelpers(nil)
+		if err != nil {
+			fmt.Printf("ERROR inlining failed: %v\n", err)
+			os.Exit(2)
+		}
+		if *list {
+			for _, s := range inl {
+				fmt.Println("  inlined:", s)
+			}
+			for _, s := range rem {
+				fmt.Println("  removed:", s)
+			}
+		}
+		fmt.Printf("variant helpers-inlined: %d call sites inlined, %d helpers removed\n", len(inl), len(rem))
+	}
 	exit := 0
 	for _, id := range ids {
 		rs := registry[id]
@@ -117,7 +147,7 @@ func main() {
 			exit = 2
 			continue
 		}
-		code := runOne(pr, id, rs, *tier, *verif, *only, seed, *noev, *list, t0, *repo, *par)
+		code := runOne(pr, id, rs, *tier, *verif, *only, seed, *noev, *list, t0, *repo, *par, *variant == "auto", *arch)
 		t0 = time.Now()
 		if code > exit {
 			exit = code
@@ -126,7 +156,7 @@ func main() {
 	os.Exit(exit)
 }
 
-func runOne(pr *Prog, id string, rs *ruleSet, tier, verif, only string, seed int, noev, list bool, t0 time.Time, repo string, par int) (code int) {
+func runRules(pr *Prog, id string, rs *ruleSet, tier, only string, t0 time.Time) *Ledger {
 	l := NewLedger(id, tier)
 	l.start = t0
 	l.only = only
@@ -140,6 +170,27 @@ func runOne(pr *Prog, id string, rs *ruleSet, tier, verif, only string, seed int
 		}()
 		rs.run(pr, l)
 	}()
+	return l
+}
+
+func runOne(pr *Prog, id string, rs *ruleSet, tier, verif, only string, seed int, noev, list bool, t0 time.Time, repo string, par int, fallback bool, arch string) (code int) {
+	l := runRules(pr, id, rs, tier, only, t0)
+	if os.Getenv("GCLVERIFY_FORCE_V1") != "" && pr.Variant == "" {
+		// development: report the verdicts of the first fallback variant whatever the as-written result
+		pv, err := loadProg(repo, arch)
+		if err == nil {
+			inl, rem, _ := pv.InlineHelpers(claimsOf(pr, l, verif))
+			fmt.Printf("  forced variant unclaimed-helpers-inlined: inlined %v removed %v\n", inl, rem)
+			pv.Variant = "unclaimed-helpers-inlined"
+			l = runRules(pv, id, rs, tier, only, t0)
+		}
+	} else if fallback && only == "" && pr.Variant == "" && len(l.infraErrs) == 0 {
+		if open := l.Unlisted(verif, rs.floors); len(open) > 0 {
+			if lv := decideOnVariants(pr, l, open, id, rs, tier, verif, t0, repo, arch); lv != nil {
+				l = lv
+			}
+		}
+	}
 	if tier == "thorough" && only == "" && os.Getenv("GCLVERIFY_CHILD") == "" {
 		thorough(pr, id, rs, l, repo, verif, par)
 	}
@@ -150,6 +201,62 @@ func runOne(pr *Prog, id string, rs *ruleSet, tier, verif, only string, seed int
 	}
 	return l.Finish(finishOpts{verifDir: verif, floors: rs.floors, explain: rs.explain, trusted: trustedBase, seed: seed,
 		checkerCmd: fmt.Sprintf("./run.sh %s %s", id, tier), noEvidence: noev})
+}
+
+// decideOnVariants: the rules left something undischarged on the program as written. Run them on equivalent variants
+// of the program (variant.go); the first variant on which everything is discharged decides the property. Returns nil
+// when no variant does (the as-written report stands).
+func decideOnVariants(pr *Prog, l *Ledger, open []*Obligation, id string, rs *ruleSet, tier, verif string, t0 time.Time, repo, arch string) *Ledger {
+	claims := claimsOf(pr, l, verif)
+	var prevInlined string
+	for _, v := range []struct {
+		name string
+		keep map[string]bool
+	}{{"unclaimed-helpers-inlined", claims}, {"all-helpers-inlined", nil}} {
+		pv, err := loadProg(repo, arch)
+		if err != nil {
+			return nil
+		}
+		inl, rem, err := pv.InlineHelpers(v.keep)
+		if err != nil {
+			l.Note("variant %s could not be built: %v", v.name, err)
+			continue
+		}
+		sig := strings.Join(inl, ";")
+		if len(inl) == 0 || sig == prevInlined {
+			continue
+		}
+		prevInlined = sig
+		pv.Variant = v.name
+		lv := runRules(pv, id, rs, tier, "", t0)
+		if len(lv.infraErrs) > 0 || len(lv.Unlisted(verif, rs.floors)) > 0 {
+			continue
+		}
+		var keys []string
+		for _, o := range open {
+			keys = append(keys, o.Key+": "+o.Detail)
+		}
+		lv.Note("decided on the equivalent program variant %q (helpers inlined at their static call sites; inlining preserves accesses, locking and order of effects). On the program as written %d obligation(s) were not discharged because the rules read one function at a time: %s", v.name, len(open), strings.Join(keys, " | "))
+		lv.Extra["variant"] = map[string]interface{}{"name": v.name, "inlined_call_sites": inl, "helpers_removed": rem, "as_written_open": keys}
+		fmt.Printf("  %s: %d obligation(s) not discharged on the program as written; all discharged on variant %s (%d call sites inlined)\n", id, len(open), v.name, len(inl))
+		return lv
+	}
+	return nil
+}
+
+func loadHelperBaseline(verif string) map[string]bool {
+	out := map[string]bool{}
+	b, err := os.ReadFile(verif + "/helpers_baseline.txt")
+	if err != nil {
+		return out
+	}
+	for _, ln := range strings.Split(string(b), "\n") {
+		ln = strings.TrimSpace(ln)
+		if ln != "" && !strings.HasPrefix(ln, "#") {
+			out[ln] = true
+		}
+	}
+	return out
 }
 
 // thorough: second load under GOARCH=386 (verdicts must agree) and the sensitivity replay of the mutants.
